@@ -62,8 +62,8 @@ func parse_find(tokens []*Token, token_index int) (*AstFind, int, error) {
 		Body: []AstExpression{},
 	}
 
-	current_token := tokens[new_index]
-	current_index := new_index
+	current_index := consumeIgnoreableTokens(tokens, new_index)
+	current_token := tokens[current_index]
 	for current_token.TokenType != FIND && current_token.TokenType != REPLACE && current_token.TokenType != SET && current_token.TokenType != EOF {
 		ws_index := consumeIgnoreableTokens(tokens, current_index)
 		expr, new_index, parseError := parse_expression(tokens, ws_index)
@@ -93,8 +93,8 @@ func parse_replace(tokens []*Token, token_index int) (*AstReplace, int, error) {
 		Body: []AstExpression{},
 	}
 
-	current_token := tokens[new_index]
-	current_index := new_index
+	current_index := consumeIgnoreableTokens(tokens, new_index)
+	current_token := tokens[current_index]
 	for current_token.TokenType != WITH && current_token.TokenType != FIND && current_token.TokenType != REPLACE && current_token.TokenType != SET && current_token.TokenType != EOF {
 		ws_index := consumeIgnoreableTokens(tokens, current_index)
 		expr, new_index, parseError := parse_expression(tokens, ws_index)
